@@ -11,7 +11,7 @@ Claims, for every run within the bound, with --work-directory, with --keep-tempo
   * at every executor call the work directory and the temporary directory handed to the executor exist, and the work directory differs
     from that of every other document of the run (unless --work-directory is given: then it is that directory);
   * every test case handed to the executor carries TESTDIR, TESTFILE, TESTSHELL, TMPDIR (= that existing temporary directory) and the
-    documented locale / terminal variables;
+    documented locale / terminal variables — also when its own inline configuration names TESTDIR / TMPDIR — and keeps its other variables;
   * when `run` returns — Ok, validation failure or hard error — no directory scrut created is left, unless
     --keep-temporary-directories; a directory given with --work-directory is still there and only the temporary directory created
     inside it is gone.
@@ -297,6 +297,12 @@ def mk_setup(keep, user_dir, docs, same_names):
             path = ("/docs/d%d/test.md" % d) if same_names else ("/docs/doc%d.md" % d)
             doc.fields[STRUCTS["ParsedTestFile"].index("path")] = mk_pathbuf(path)
         ctx.notes["doc_paths"] = [pstr(field_of(doc, "path")) for doc in ctx.notes["documents"]]
+        # every test case brings its own variables, among them names scrut documents as set by itself ("set afresh for every test case")
+        for doc in ctx.notes["documents"]:
+            for tc in field_of(doc, "testcases").items:
+                cfg = field_of(tc, "config")
+                cfg.fields[STRUCTS["TestCaseConfig"].index("environment")] = MapBuf([[mk_pathbuf("FOO"), mk_pathbuf("bar")], [mk_pathbuf("TESTDIR"), mk_pathbuf("/not/here")],
+                                                                                     [mk_pathbuf("TMPDIR"), mk_pathbuf("/elsewhere")]])
         a = deref(args[0])
         order = c20.struct_order(e2.REPO + "/src/bin/commands/test.rs", "Args")
         g = a.fields[order.index("global")]
@@ -343,6 +349,8 @@ def post(ctx, args, kind, value):
                 return False
             if env["TMPDIR"] != call["tmp"] or env["TESTFILE"] != fname or env["TESTDIR"] != fdir or env["TESTSHELL"] != "/bin/bash":
                 return False
+            if env.get("FOO") != "bar":
+                return False          # the test case's own (undocumented) variable is lost
     left = sorted(p for p, e in L.dirs.items() if e["by"] == "scrut")
     if keep:
         pass                          # directories may stay
@@ -403,7 +411,9 @@ def native_run(keep, user_dir, n_docs, same_names, fail_last):
             os.makedirs(ddir, exist_ok=True)
             p = os.path.join(ddir, "test.md" if same_names else "doc%d.md" % d)
             body = "probe\n\n```scrut\n$ echo \"$PWD|$TMPDIR|$TESTDIR|$TESTFILE|$TESTSHELL|$LANG|$LC_ALL|$TZ|$COLUMNS\" > %s/probe%d.a; test -d \"$TMPDIR\" && echo ok\nok\n```\n\n" % (root, d)
-            body += "probe2\n\n```scrut\n$ echo \"$PWD|$TMPDIR\" > %s/probe%d.b; echo %s\nok\n```\n" % (root, d, "nope" if (fail_last and d == n_docs - 1) else "ok")
+            # the second test case names documented variables in its own inline configuration: they are still set by scrut
+            body += "probe2\n\n```scrut {environment: {TMPDIR: \"/elsewhere\", TESTDIR: \"/not/here\", FOO: \"bar\"}}\n$ echo \"$PWD|$TMPDIR|$TESTDIR|$FOO\" > %s/probe%d.b; echo %s\nok\n```\n" % (
+                root, d, "nope" if (fail_last and d == n_docs - 1) else "ok")
             open(p, "w").write(body)
             docs.append(p)
         argv = [SCRUT_BIN, "test", "-r", "json"] + docs
@@ -441,7 +451,9 @@ def native_run(keep, user_dir, n_docs, same_names, fail_last):
         if tmpdir and os.path.realpath(tmpdir) == os.path.realpath(pwd):
             why = why or "document %d: TMPDIR is the work directory itself (%s)" % (d, tmpdir)
         if row["b"][1] != tmpdir or not tmpdir:
-            why = why or "document %d: TMPDIR differs between test cases or is empty" % d
+            why = why or "document %d: TMPDIR differs between test cases (%s / %s) or is empty" % (d, tmpdir, row["b"][1])
+        if len(row["b"]) >= 4 and (row["b"][2] != testdir or row["b"][3] != "bar"):
+            why = why or "document %d: a test case that names TESTDIR itself runs with TESTDIR=%s (documented: %s), FOO=%s" % (d, row["b"][2], testdir, row["b"][3])
         if testfile != os.path.basename(docs[d]) or os.path.realpath(testdir) != os.path.realpath(os.path.dirname(docs[d])):
             why = why or "document %d: TESTFILE/TESTDIR are %s / %s" % (d, testfile, testdir)
         if not shell or lang != "C" or lc_all != "C" or tz != "GMT" or cols != "80":
